@@ -4,13 +4,21 @@ Leg A: coq/Properties/C15.v (theorems over Sync/Sync.v, premises regenerated
 from the source into Generated/SyncFacts.v).  Leg B: harness/cmd/c15 drives a
 real wallet over simchain; after every notification the observation is
 compared with the model (Sync/SyncCorr.v) and with the property itself
-(the oracle, evaluated by the harness against the simulated backend)."""
+(the oracle, evaluated by the harness against the simulated backend).
+
+What decides in the comparison with the model is what the theorems speak about:
+synced-to height and hash, ChainSynced, the hashes stored from the start of the
+followed chain up to synced-to, the confirmed / unconfirmed records, and whether
+a start-up attempt fails.  Differences elsewhere are counted (DRIFT)."""
 import concurrent.futures as cf
 
 from vlib import *
 
-DIFF = {1: "handler error flag", 2: "synced-to stamp", 3: "ChainSynced", 4: "stored block hashes",
+DIFF = {1: "start-up attempt fails / succeeds", 2: "synced-to height or hash", 3: "ChainSynced",
+        4: "block hash stored for a height between the start of the followed chain and synced-to",
         5: "confirmed transaction records", 6: "unconfirmed transaction records", 9: "observation does not decode"}
+# differences that are only counted (no theorem of C15 depends on them)
+DRIFT = ["handler_error_flag", "synced_to_timestamp", "hash_outside_followed_heights", "birthday_block"]
 
 
 def zi(x):
@@ -28,7 +36,11 @@ def r_segs(runs):
 def r_obs(o):
     if o is None:
         return "[]"
-    xs = [int(o["err"]), o["synced"]["h"], o["synced"]["hash"], o["synced"]["t"], int(o["chain_synced"]), len(o["probes"])]
+    b = o.get("bday")
+    xs = [2 if o.get("err_unobserved") else int(o["err"]), o["synced"]["h"], o["synced"]["hash"], o["synced"]["t"],
+          int(o["chain_synced"])]
+    xs += [1, b["h"], b["hash"]] if b else [0, 0, 0]
+    xs.append(len(o["probes"]))
     for p in o["probes"]:
         xs += [p[0], p[1] + 1]
     xs.append(len(o["mined"]))
@@ -50,8 +62,14 @@ def r_event(e):
             op = "txm %d %s %s %s %s" % (e["tx"], cbool(e.get("cb", False)), zi(e["b"]["h"]), zi(e["b"]["hash"]), zi(e["b"]["t"]))
         else:
             op = "txu %d" % e["tx"]
+    elif k == "filtered":
+        op = "filt %s %s %s %s" % (zi(e["b"]["h"]), zi(e["b"]["hash"]), zi(e["b"]["t"]),
+                                   clist(["(%d, %s)" % (t[0], cbool(bool(t[1]))) for t in e.get("txs") or []]))
     elif k == "startup":
-        op = "CStartup %s" % r_segs(e["backend"])
+        op = "CStartup %s %s %s" % (cbool(e.get("first", False)), r_segs(e["backend"]),
+                                    r_meta(e.get("loc") or dict(h=0, hash=0, t=0)))
+    elif k == "rescan_progress":
+        op = "CRescanProgress %s %s" % (r_segs(e["backend"]), zi(e.get("height", 0)))
     elif k == "rescan_finished":
         op = "CRescanFinished %s %s" % (r_segs(e["backend"]), zi(e.get("height", 0)))
     elif k == "reopen":
@@ -59,7 +77,7 @@ def r_event(e):
     elif k == "set_synced":
         op = "CSetSynced %s" % cbool(e.get("flag", False))
     elif k == "set_birthday":
-        op = "CSetBirthday"
+        op = "CSetBirthday %s" % r_meta(e["b"])
     else:
         raise ValueError(k)
     return "(%s, %s)" % (op, r_obs(e.get("obs")))
@@ -74,14 +92,28 @@ def r_case(c):
 class C15(Check):
     ID = "C15"
     RULE = ("a real wallet.Wallet (regtest, bbolt file) follows a simulated backend: extensions of 1-5 blocks, reorganisations of "
-            "depth 1-8 (new branch shorter, equal or longer), wallet-paying transactions (regular and coinbase, notified before or "
-            "after the block-connected notification) in blocks that are later replaced and mined again or not, unconfirmed "
-            "notifications, repeated / unknown-hash / future-height BlockDisconnected and future-height BlockConnected "
-            "notifications anywhere in the stream, offline periods (Reopen, chain evolves, real SynchronizeRPC start-up observed "
-            "at the end of the rollback transaction and after RescanFinished), one chain longer than MaxReorgDepth per run "
-            "(six in the thorough tier); every notification goes through the wallet's own handler (one walletdb.Update each) "
-            "and is followed by an observation; corpus/C15 (S1 witness, two mutation witnesses) runs first. non-trivial = a reorganisation (online or offline) that replaces a block "
-            "holding a wallet transaction; distinct by input")
+            "depth 1-8 and (1 in 8) 9-25 (new branch shorter, equal or longer), wallet-paying transactions (regular and coinbase, "
+            "notified before or after the block-connected notification, one chain.RelevantTx each or all of a block in one "
+            "chain.FilteredBlockConnected) in blocks that are later replaced and mined again or not, unconfirmed notifications, "
+            "repeated / unknown-hash / future-height BlockDisconnected and future-height BlockConnected notifications anywhere in "
+            "the stream; half of the cases deliver every notification through the wallet's own handleChainNotifications goroutine "
+            "(the switch body is inline: the notification is sent on the backend's unbuffered channel followed by a value the "
+            "switch ignores, whose acceptance shows that the first has been processed) - those also get *chain.RescanProgress / "
+            "*chain.RescanFinished naming an already reached height anywhere in the stream; the other half uses the handler hooks "
+            "(one walletdb.Update each).  Start-up is always the real SynchronizeRPC / ClientConnected / birthdaySanityCheck / "
+            "waitForSync / syncWithChain, observed at the beginning of every attempt (BackEnd()), at the end of the rollback "
+            "transaction (NotifyBlocks) and after RescanFinished: (a) a quarter of the cases start with the FIRST synchronisation "
+            "of a wallet created with a birthday near a block of an existing chain of 2-60 blocks (birthdayStamp == nil: locate, "
+            "SetSyncedTo(birthday block), SetBirthdayBlock); (b) offline periods (Reopen, chain evolves by up to three "
+            "reorganisations of depth 0-8) with the birthday block at genesis, at a later block of an old wallet, or where the first "
+            "synchronisation put it, so that the rollback crosses the birthday block (birthday-reset branch) in about one case in "
+            "eight; (c) a quarter of the offline periods end with the backend LOWER than the wallet (a proper prefix of its chain, or "
+            "another branch): the failed attempt is observed, then the backend catches up in one or two steps; (d) fork points below "
+            "the heights the wallet stores (below a first synchronisation's birthday block): the attempt fails for ever, the case "
+            "ends; one chain longer than MaxReorgDepth per run (six in the thorough tier).  Eight fixed inputs (S1 witness, one per "
+            "start-up path, NotifyBlocks failing once after the first synchronisation's transaction) and corpus/C15 run first. "
+            "non-trivial = a reorganisation (online or offline) that replaces a block holding a wallet transaction, a first "
+            "synchronisation, or a failed start-up attempt; distinct by input")
     N_QUICK = 260
     N_THOROUGH = 3000
     SHARD = 24
@@ -90,14 +122,36 @@ class C15(Check):
         "the transaction store is modelled only as the set of (txid, confirming block) / unconfirmed facts; wallet transactions of the "
         "harness never conflict with each other (removeDoubleSpends is outside the model)",
         "heights, times within int32/uint32 (no wrap-around)",
-        "start-up: the backend's best chain is at least as high as the wallet's synced-to height (GetBlockHash fails otherwise and "
-        "syncWithChain is retried forever) and the fork point lies inside the stored window",
+        "first synchronisation: which block locateBirthdayBlock returns is property C16's business; the model takes the returned "
+        "block as given (the harness asks the same function on the same backend) and the theorems need only 0 <= its height <= "
+        "backend tip; a stored but unverified birthday block (birthdaySanityCheck relocating it, wallets migrated from before the "
+        "birthday block existed) is neither modelled nor run",
+        "the birthday block is compared with the model but does not decide (no clause of the property mentions it); likewise the "
+        "synced-to timestamp, hashes stored outside [start of the followed chain, synced-to height] and a handler's error flag: "
+        "differences are counted in coverage.drift_not_deciding",
+        "*chain.RescanProgress / *chain.RescanFinished outside a start-up are only sent for heights the wallet has reached "
+        "(catchUpHashes is then empty); a rescan notification running ahead of the block-connected notifications of the same blocks "
+        "(the race named in the TODO of catchUpHashes) is outside the property's notification kinds and not generated",
     ]
-    PARTIAL_CLAUSES = []
+    PARTIAL_CLAUSES = [
+        "start-up against a backend whose best chain is LOWER than the wallet's synced-to height (C15_startup_backend_lower_partial): "
+        "the attempt fails in the first GetBlockHash and changes nothing; the wallet does not roll back to the last common block "
+        "until an attempt finds the backend at least as high (then C15_startup_rollback applies); exercised: failed attempt "
+        "observed unchanged, backend catches up, next attempt rolls back to the last common block",
+        "start-up with the fork point below the heights the wallet stores - pruned by MaxReorgDepth, or below the birthday block of a "
+        "wallet whose first synchronisation started there (C15_startup_fork_below_window_partial): the attempt fails for ever, the "
+        "wallet never synchronises again; the property promises nothing outside the window",
+        "a first synchronisation whose first transaction committed and which then fails (NotifyBlocks / rescan request error) is "
+        "repeated by waitForSync with the same nil birthday argument and fails for ever for a birthday height above 1 "
+        "(C15_first_sync_repeated_partial; needs a backend failure, outside the property's quantifier; fixed input 1506)",
+    ]
     EXTRA_TRUSTED = ["lib/extract_c15.py: go/ast reading of disconnectBlock (incremental stamp or single literal) and of "
                      "MaxReorgDepth / staleHeight; when a shape is not recognised the fact is determined by running the witness "
                      "scenario (connect 1..n, disconnect n, read back SyncedTo / BlockHash; prune boundary) on the code built "
-                     "from the repository (harness/cmd/probe-c15); evidence field facts_source says which path ran"]
+                     "from the repository (harness/cmd/probe-c15); evidence field facts_source says which path ran",
+                     "harness/cmd/c15: the barrier protocol on the notification channel (a notification is taken as processed when "
+                     "the goroutine accepts the next value) and the attempt gate in BackEnd() rely on handleChainNotifications "
+                     "reading one notification at a time and on syncWithChain being the only caller of BackEnd()"]
 
     def extra_coverage(self, cases):
         # which path of lib/extract_c15.py produced the regenerated facts of this run
@@ -109,7 +163,8 @@ class C15(Check):
                 src, detail = m.group(1), re.sub(r"\s+", " ", m.group(2)).strip()
         except OSError:
             pass
-        return dict(facts_source=src, facts_source_detail=detail)
+        return dict(facts_source=src, facts_source_detail=detail,
+                    drift_not_deciding=dict(zip(DRIFT, getattr(self, "drift", [0] * len(DRIFT)))))
 
     def gen_args(self, tier, seed):
         nn = self.N_QUICK if tier == "quick" else self.N_THOROUGH
@@ -129,7 +184,7 @@ class C15(Check):
 
     def nontrivial(self, c):
         t = set(c.get("tags", []))
-        return "wallet_tx_in_replaced_block" in t or "offline_reorg_of_wallet_tx_block" in t
+        return bool(t & {"wallet_tx_in_replaced_block", "offline_reorg_of_wallet_tx_block", "first_sync", "startup_attempt_failed"})
 
     def sample(self, c):
         evs = c["obs"]["events"]
@@ -144,8 +199,11 @@ From Verif Require Import Sync.Sync Sync.SyncCorr.
 Local Open Scope Z_scope.
 Definition cases : list scase :=
 %s.
-Definition bad := Eval vm_compute in failures cases.
+Definition res := Eval vm_compute in evaluate cases.
+Definition bad := Eval vm_compute in res.1.
+Definition dr := Eval vm_compute in res.2.
 Print bad.
+Print dr.
 """ % clist(["\n " + r_case(c) for c in cases])
 
     def evaluate_model(self, cases):
@@ -168,6 +226,7 @@ Print bad.
         with cf.ThreadPoolExecutor(max_workers=12) as ex:
             results = list(ex.map(run, shards))
         self.fail_detail = {}
+        self.drift = [0] * len(DRIFT)
         for idx, (rc, out, err) in results:
             logs += (out[-600:] + err[-600:])
             if rc != 0:
@@ -177,6 +236,11 @@ Print bad.
             if printed is None:
                 problems.append("correspondence: could not parse model output: " + out[-500:])
                 continue
+            dp = parse_nat_list(parse_printed(out, "dr"))
+            if dp is None or len(dp) != len(DRIFT):
+                problems.append("correspondence: could not parse the drift counts: " + out[-500:])
+            else:
+                self.drift = [a + b for a, b in zip(self.drift, dp)]
             nums = [int(x) for x in re.findall(r"\d+", printed)]
             for j in range(0, len(nums) - 2, 3):
                 ci, ev, code = idx[nums[j]], nums[j + 1], nums[j + 2]
